@@ -1,6 +1,7 @@
 import PV.Model.Sexp
 import PV.Model.Stringify
 import PV.Generated.Prec
+import PV.Proofs.SyntaxStrFlatten
 /- Driver operations for the printer / parser models (C06, C07, C13). -/
 namespace PV.Driver
 open PV
@@ -57,6 +58,13 @@ def handleSyntax : Sexp → Option Sexp
           | .ok e' =>
             if flattenAssoc e' == flattenAssoc e then .atom "same"
             else Sexp.mk "differ" [e'.toSexp])
+  | .list [.atom "fragment", e] => do
+      -- the fragments of the theorems `PV.C06.roundtrip_current` / `roundtrip_flat_current`
+      let e ← Expr.ofSexp? e
+      pure (if Syntax.InFragment Generated.parserPrec Generated.printPrec e then Sexp.mk "in" []
+        else if Syntax.InFragmentFlat Generated.parserPrec Generated.printPrec e then
+          Sexp.mk "flat" []
+        else Sexp.mk "out" [])
   | _ => none
 
 end PV.Driver
